@@ -2,9 +2,9 @@
 
 CHECK = {
     "harnesses": [
-        {"exe": "c09_objectives", "flavour": "plain", "cases": (8000, 150000), "procs": (8, 14), "subs": ["objectives"]},
+        {"exe": "c09_objectives", "flavour": "plain", "cases": (14000, 300000), "procs": (8, 14), "subs": ["objectives"]},
     ],
-    "min_nontrivial": (1500, 30000),
+    "min_nontrivial": (3000, 60000),
     "timeout": (900, 7200),
     "confirm": (5, 2),   # the statement quantifies over schedules: a case failing 2 of 5 replays is schedule dependent, hence a violation
     "rule": ("rapidcheck-generated data sources (shared generator: 1..200 samples, 1..10 input features over scalar / structured / single- / "
